@@ -364,6 +364,17 @@ def r19_a_precondition(ctx):
     return rr
 
 
+def r19_f_precondition(ctx):
+    """R19.f as the soundness precondition of the tokenizer table for properties about what the rules do: the table
+    describes the driver and the rules; it describes the token stream only if the generator passes the driver's tokens
+    through unchanged.  When it does not, those properties are not decidable from the table (exit 2)."""
+    rr = r19_f(ctx)
+    if rr.findings:
+        raise AnalysisError('the token generator does not pass the driver\'s tokens through one by one (%s): the '
+                            'tokenizer table does not describe the token stream of this tree' % rr.findings[0].construct[:80])
+    return rr
+
+
 def _yield_paths(stmts):
     """paths through a statement list (If only; inner loops are treated as yield-free if they contain none)"""
     paths = [{'yields': [], 'desc': '', 'exits': False, 'done': False}]
